@@ -238,6 +238,30 @@ func c03ValidURL(c *Ctx, F *model.Fields) {
 						wsSeen[k] = true
 					}
 				}
+				if cc := isCallTo(cl, "strings.ContainsAny"); cc != nil {
+					// one test for several characters
+					if k, ok := constString(cc.Common().Args[1]); ok {
+						hit := false
+						for _, ch := range []string{" ", "\t", "\n"} {
+							if strings.Contains(k, ch) {
+								wsSeen[ch] = true
+								hit = true
+							}
+						}
+						if hit {
+							ws = append(ws, i)
+						}
+					}
+				}
+				if cc := isCallTo(cl, "strings.ContainsRune"); cc != nil {
+					if k, ok := cc.Common().Args[1].(*ssa.Const); ok && k.Value != nil {
+						ch := string(rune(k.Int64()))
+						if ch == " " || ch == "\t" || ch == "\n" {
+							ws = append(ws, i)
+							wsSeen[ch] = true
+						}
+					}
+				}
 				if cc := isCallTo(cl, "strings.HasPrefix"); cc != nil {
 					if k, ok := constString(cc.Common().Args[1]); ok && k == "data:" {
 						dataPfx = append(dataPfx, i)
